@@ -105,7 +105,7 @@ func lex(src string) ([]tok, error) {
 			toks = append(toks, tok{"id", src[i:j], i})
 			i = j
 		default:
-			ops := []string{"<==>", "==>", "::", "==", "!=", "<=", ">=", "&&", "||", ".(", "(", ")", "[", "]", ",", ".", "!", "-", "+", "*", "/", "%", "<", ">", "=", ":"}
+			ops := []string{"<==>", "==>", "::", "==", "!=", "<=", ">=", "&&", "||", ".(", "(", ")", "[", "]", "{", "}", ",", ".", "!", "-", "+", "*", "/", "%", "<", ">", "=", ":"}
 			matched := false
 			for _, op := range ops {
 				if strings.HasPrefix(src[i:], op) {
@@ -475,6 +475,11 @@ type Clause struct {
 	Props []string // property ids this clause counts for (defaults to the block's)
 }
 
+type CallReq struct {
+	Pattern string
+	Clause  *Clause
+}
+
 type LetDef struct {
 	Name string
 	E    Expr
@@ -505,15 +510,18 @@ type Contract struct {
 	Results  []string
 	Requires []*Clause
 	Ensures  []*Clause
+	Defines  []*Clause // ghost-defining postconditions: assumed at call sites, not checked on the body
 	Modifies []Expr
 	ModSet   bool // a modifies clause was given ("modifies nothing" -> ModSet && len(Modifies)==0)
 	LoopInv  map[int][]*Clause
 	Lets     []LetDef
 	Witness  []LetDef
+	CallReqs []CallReq // caller-side requirements at matching call sites
 	Props    []string
 	Trusted  bool
 	Safety   bool
 	Inline   bool // callers inline the body instead of using the contract
+	Opaque   bool // callers see an uninterpreted (pure, deterministic) function of the arguments
 	Atomic   string
 	Implements []string
 	Notes    []string
@@ -638,7 +646,7 @@ func ParseSpecFile(path, pkg string) (*SpecFile, error) {
 			kw, rest = ln[:i], strings.TrimSpace(ln[i+1:])
 		}
 		switch kw {
-		case "func", "interface", "extern":
+		case "func", "interface", "extern", "funcfield":
 			name, params, results := parseTargetSig(rest)
 			cur = &Contract{Kind: kw, Target: name, Pkg: pkg, File: path, Params: params, Results: results, LoopInv: map[int][]*Clause{}}
 			sf.Contracts = append(sf.Contracts, cur)
@@ -727,6 +735,13 @@ func ParseSpecFile(path, pkg string) (*SpecFile, error) {
 					label = fmt.Sprintf("e%d", len(cur.Ensures))
 				}
 				cur.Ensures = append(cur.Ensures, &Clause{Label: label, E: e, Src: src, Props: props})
+			case "defines":
+				label, src := splitLabel(rest)
+				e, err := ParseExpr(src)
+				if err != nil {
+					return nil, fail(ln, err)
+				}
+				cur.Defines = append(cur.Defines, &Clause{Label: label, E: e, Src: src})
 			case "modifies":
 				cur.ModSet = true
 				if rest == "nothing" {
@@ -768,6 +783,31 @@ func ParseSpecFile(path, pkg string) (*SpecFile, error) {
 					return nil, fail(ln, err)
 				}
 				cur.Lets = append(cur.Lets, LetDef{strings.TrimSpace(rest[:i]), e})
+			case "callreq":
+				// callreq <pattern> [label] {props} : <expr>  -- must hold in the caller's state at every call whose callee name contains <pattern>
+				i := strings.Index(rest, " : ")
+				if i < 0 {
+					return nil, fail(ln, fmt.Errorf("expected: callreq <pattern> [label] : <expr>"))
+				}
+				head := strings.Fields(rest[:i])
+				if len(head) == 0 {
+					return nil, fail(ln, fmt.Errorf("callreq: missing pattern"))
+				}
+				label, _ := splitLabel(strings.Join(head[1:], " "))
+				var props []string
+				if j := strings.Index(rest[:i], "{"); j >= 0 {
+					if k := strings.Index(rest[:i], "}"); k > j {
+						props = strings.Fields(rest[j+1 : k])
+					}
+				}
+				e, err := ParseExpr(rest[i+3:])
+				if err != nil {
+					return nil, fail(ln, err)
+				}
+				if label == "" {
+					label = fmt.Sprintf("c%d", len(cur.CallReqs))
+				}
+				cur.CallReqs = append(cur.CallReqs, CallReq{Pattern: head[0], Clause: &Clause{Label: label, E: e, Src: rest[i+3:], Props: props}})
 			case "witness":
 				i := strings.Index(rest, "=")
 				if i < 0 {
@@ -787,6 +827,11 @@ func ParseSpecFile(path, pkg string) (*SpecFile, error) {
 				}
 			case "inline":
 				cur.Inline = true
+			case "opaque":
+				cur.Opaque = true
+				if rest != "" {
+					cur.Notes = append(cur.Notes, rest)
+				}
 			case "safety":
 				cur.Safety = rest != "off"
 			case "atomic":
@@ -830,6 +875,7 @@ type SpecDB struct {
 	ByFunc    map[string]*Contract // "<pkgpath>.<RelString>"
 	ByIface   map[string]*Contract // "<pkgpath>.<Iface>.<Method>"
 	ByExtern  map[string]*Contract // "<pkgpath>.<name>" or "(<*pkg.T>).M" full ssa String()
+	ByField   map[string]*Contract // "<pkgpath>.<Type>.<Field>": contract of a function-valued struct field
 	Ghosts    map[string]*GhostDecl
 	Pures     map[string]*PureDef
 	Guarded   []GuardDeclQ
@@ -842,7 +888,7 @@ type GuardDeclQ struct {
 }
 
 func NewSpecDB() *SpecDB {
-	return &SpecDB{ByFunc: map[string]*Contract{}, ByIface: map[string]*Contract{}, ByExtern: map[string]*Contract{}, Ghosts: map[string]*GhostDecl{}, Pures: map[string]*PureDef{}}
+	return &SpecDB{ByFunc: map[string]*Contract{}, ByIface: map[string]*Contract{}, ByExtern: map[string]*Contract{}, ByField: map[string]*Contract{}, Ghosts: map[string]*GhostDecl{}, Pures: map[string]*PureDef{}}
 }
 
 func (db *SpecDB) Add(sf *SpecFile) error {
@@ -861,6 +907,8 @@ func (db *SpecDB) Add(sf *SpecFile) error {
 				return fmt.Errorf("duplicate interface contract for %s", key)
 			}
 			db.ByIface[key] = c
+		case "funcfield":
+			db.ByField[sf.Pkg+"."+c.Target] = c
 		case "extern":
 			if _, dup := db.ByExtern[c.Target]; dup {
 				return fmt.Errorf("duplicate extern contract for %s", c.Target)
